@@ -101,6 +101,15 @@ func runC17(e *Env) error {
 		{"defined-on-subscript-failing-container", "a{{ nosuchfn()[0] is defined }}b", true},
 		{"not-defined-on-subscript-failing-index", "a{% if xs[1|nosuchfilter] is not defined %}y{% endif %}b", true},
 		{"defined-on-subscript-failing-filter-in-index", "a{{ m1[x|nosuchfilter] is defined }}b", true},
+		{"range-zero-step", "a{% for i in range(1, 5, 0) %}x{% else %}E{% endfor %}b", true},
+		{"range-no-arguments", "a{% for i in range() %}x{% else %}E{% endfor %}b", true},
+		{"range-printed-zero-step", "a{{ range(1, 5, 0)|length }}b", true},
+		{"length-function-no-arguments", "a{{ length() }}b", true},
+		{"range-failing-argument", "a{% for i in range(1, nosuchfn()) %}x{% else %}E{% endfor %}b", true},
+		{"filter-first-argument-fails", "a{{ x|default(nosuchfn(), x) }}b", true},
+		{"filter-middle-argument-fails", "a{{ xs|slice(0, nosuchfn(), x) }}b", true},
+		{"function-first-argument-fails", "a{{ max(nosuchfn(), 1, x) }}b", true},
+		{"test-argument-fails", "a{% if 4 is divisible_by(nosuchfn()) %}y{% endif %}b", true},
 		{"tolerated-undefined-variable", "a{{ undefinedvar }}b", false},
 		{"tolerated-undefined-attribute", "a{{ m1.nosuch }}{{ undefinedvar.x.y }}b", false},
 		{"tolerated-ignore-missing", "a{% include 'nosuch' ignore missing %}b", false},
@@ -197,7 +206,7 @@ func runC17(e *Env) error {
 		g.Filters = []string{"sf1", "sf2"}
 		g.Functions = []string{"sg1"}
 		var main []GNode
-		tpls := map[string]string{"partial": "<{{ n|sf2 }}{% if s is st1 %}y{% endif %}>", "base": "[{% block c %}{{ sg1(1) }}{% endblock %}|{% block d %}d{% endblock %}]",
+		tpls := map[string]string{"partial": "<{{ n|sf2 }}{% if s is st1 %}y{% endif %}{{ n|sf1(sg1(1), n, sg1(2), 'lit') }}{{ s|default(sg1(3), n) }}>", "base": "[{% block c %}{{ sg1(1) }}{% endblock %}|{% block d %}d{% endblock %}]",
 			"lib": "{% macro mac(a, d = sg1(2)|sf1, e = 'lit') %}({{ a|sf1 }}{{ sg1(a) }}{{ d }}{{ e }}){% endmacro %}"}
 		switch rg.Intn(4) {
 		case 0:
